@@ -563,6 +563,55 @@ func (e *Exec) binop(fr *Frame, st *State, x *ssa.BinOp) Value {
 				return e.def(SInt, App(SInt, "mod", at, IntLit(m+1)))
 			}
 		}
+		// a constant mask below 2^16 on an unsigned operand: the selected bits, exactly
+		for _, pair := range [][2]ssa.Value{{x.X, x.Y}, {x.Y, x.X}} {
+			c, ok := pair[0].(*ssa.Const)
+			if !ok || c.Value == nil || ii.signed {
+				continue
+			}
+			m := c.Int64()
+			if m < 0 || m >= 1<<16 {
+				continue
+			}
+			ot := at
+			if pair[0] == x.X {
+				ot = bt
+			}
+			bit := func(k int) *Term {
+				p2 := IntLit(int64(1) << uint(k))
+				return App(SInt, "*", App(SInt, "mod", App(SInt, "div", ot, p2), IntLit(2)), p2)
+			}
+			// narrow operand and a mask that clears only a few of its bits: operand minus the cleared bits
+			if oi, ok := intInfoOf(pair[1].Type()); ok && !oi.signed && oi.bits <= 16 {
+				var cleared []int
+				for k := 0; k < oi.bits; k++ {
+					if m&(1<<uint(k)) == 0 {
+						cleared = append(cleared, k)
+					}
+				}
+				if len(cleared) <= 2 {
+					r := ot
+					for _, k := range cleared {
+						r = Sub(r, bit(k))
+					}
+					return e.def(SInt, r)
+				}
+			}
+			var parts []*Term
+			for k := 0; k < 16; k++ {
+				if m&(1<<uint(k)) != 0 {
+					parts = append(parts, bit(k))
+				}
+			}
+			if len(parts) == 0 {
+				return IntLit(0)
+			}
+			sum := parts[0]
+			for _, pt := range parts[1:] {
+				sum = Add(sum, pt)
+			}
+			return e.def(SInt, sum)
+		}
 		r := e.def(SInt, App(SInt, "uf_and", at, bt))
 		e.assume(st.pc, ii.inRange(r))
 		e.assume(st.pc, Implies(And(Le(IntLit(0), at), Le(IntLit(0), bt)), And(Le(IntLit(0), r), Le(r, at), Le(r, bt))))
